@@ -185,7 +185,11 @@ C14All(r) ==
 
 \* ---- the state space: one state per case ----------------------------------------------------------
 ReprsFor(prop) ==
-  IF Tier = "thorough" THEN {ReprOrder[i] : i \in 1..12}
+  IF Tier = "thorough"
+  THEN CASE prop = "C10" -> {"i8", "u16", "i64", "u128"}
+         [] prop = "C13" -> {"i16", "u8", "i128"}
+         [] prop = "C14" -> {"u8", "i32", "i64", "usize"}
+         [] OTHER -> {ReprOrder[i] : i \in 1..12}
   ELSE CASE prop = "C10" -> {"i8", "u64"}
          [] prop = "C11" -> {ReprOrder[i] : i \in 1..12}
          [] prop = "C12" -> {"u8", "i64", "u64", "i128"}
